@@ -194,6 +194,9 @@ func (x *fexec) record(th *fthread, from, to string, fail bool, others int) {
 	e := FEv{Kind: th.kind, ID: th.id, Txn: th.txn, From: from, To: to, Fail: fail, Others: others, Loop: -1}
 	e.Now, e.Rel = now, rel(now-h.k.T0)
 	e.Obj, e.Tag = th.obj, th.tag
+	if th.kind == "upd" {
+		e.Via = h.via[th.obj]
+	}
 	if to == "stuck" {
 		x.stuck = true
 		h.k.FEvents = append(h.k.FEvents, e)
@@ -262,12 +265,12 @@ func (x *fexec) after(th *fthread, from string, fail bool, others int) {
 	x.record(th, from, to, fail, others)
 }
 
-func (x *fexec) startUpd(u, tag int, rev bool) {
+func (x *fexec) startUpd(u, tag int, rev bool, via string) {
 	h := x.h
 	if _, busy := x.upds[u]; busy {
 		return
 	}
-	p, obj := h.newObj(tag, true)
+	call, obj := h.prepare(via, tag, true, rev)
 	th := &fthread{kind: "upd", id: u, obj: obj, tag: tag, at: make(chan string, 4), resume: make(chan bool, 1), h: h}
 	x.upds[u] = th
 	others := x.parkedOthers(th)
@@ -275,7 +278,7 @@ func (x *fexec) startUpd(u, tag int, rev bool) {
 		gid := curGid()
 		fineReg.Store(gid, th)
 		defer fineReg.Delete(gid)
-		th.err = h.acc.UpdatePoliciesData(p, rev)
+		th.err = call()
 		th.at <- "done"
 	}()
 	x.marks = append(x.marks, h.clk.ns())
@@ -330,7 +333,7 @@ func (x *fexec) do(op Op) {
 	case "fget":
 		x.startGet(op.G, op.Txn)
 	case "fupd":
-		x.startUpd(op.U, op.Tag, op.Rev)
+		x.startUpd(op.U, op.Tag, op.Rev, op.Via)
 	case "fvac":
 		x.wake(op.W)
 	case "fgo":
@@ -475,7 +478,7 @@ func (x *fexec) random(r *c.Rng) {
 			emit(Op{K: "fget", G: x.nextG, Txn: r.Range(1, ntx)})
 			x.nextG++
 		case y < 30 && len(x.upds) < 2:
-			emit(Op{K: "fupd", U: x.nextU, Tag: r.Intn(4), Rev: r.Chance(1, 4)})
+			emit(Op{K: "fupd", U: x.nextU, Tag: r.Intn(4), Rev: r.Chance(1, 4), Via: pickVia(r, 50)})
 			x.nextU++
 		case y < 42:
 			emit(Op{K: "fvac", W: r.Intn(2)})
@@ -750,6 +753,7 @@ func runFine(o *c.Out, k Case, r *c.Rng) {
 	if fails > 0 {
 		o.Count("fine:has_failed_call")
 	}
+	countFailsafe(o, "fine:", &k)
 	idx := o.Case("fine", coqFine(&k), k, inter >= 3)
 	o.MonitorChecked(1)
 	for _, h := range monitorFine(&k) {
@@ -863,6 +867,53 @@ func fineGrid(o *c.Out) {
 					{K: "frun", Who: "get", G: 2}, {K: "adv", D: 1},
 					{K: "frun", Who: "upd", U: order[0]}, {K: "adv", D: 1}, {K: "frun", Who: "upd", U: order[1]},
 					{K: "adv", D: d}}, both, fullGet(3, 1), fullGet(4, 2), fullGet(5, 3)))
+			}
+		}
+	}
+}
+
+// fineFailsafe: the fail-safe entry points held at their call-outs. The
+// fail-safe activates (RevertToDiagnosisFree), a transaction is first seen, the
+// fail-safe is lifted (RevertToLastLoaded / a reload / a raw update / the
+// fail-safe activating once more) with the look-up of the response placed before
+// the update's HAProxy call returns, between its Lock section and the clock
+// reading of VacuumKey, or after it; then d later, passes, again.
+func fineFailsafe(o *c.Out) {
+	run := func(ops []Op) {
+		if fineStuck < 4 {
+			runFine(o, Case{Ops: ops}, nil)
+		}
+	}
+	both := append(fullPass(0), fullPass(1)...)
+	for _, lift := range []string{"toloaded", "reload", "raw", "tofree"} {
+		for _, before := range []bool{false, true} { // a transaction from before the fail-safe
+			for respAt := 0; respAt <= 2; respAt++ {
+				for _, d := range []int64{0, ttl - 1, ttl + 1} {
+					var ops []Op
+					if before {
+						ops = append(ops, fullGet(1, 1)...)
+					}
+					ops = append(ops, Op{K: "fupd", U: 1, Tag: 1, Via: "tofree"}, Op{K: "frun", Who: "upd", U: 1})
+					ops = append(ops, fullGet(2, 2)...) // request during the fail-safe
+					ops = append(ops, Op{K: "fupd", U: 2, Tag: 2, Via: lift})
+					resp := append(fullGet(3, 2), fullGet(4, 1)...)
+					if respAt == 0 {
+						ops = append(ops, resp...) // while the lifting update is inside its HAProxy call
+					}
+					ops = append(ops, Op{K: "fgo", Who: "upd", U: 2}) // published; parked at VacuumKey's clock reading
+					if respAt == 1 {
+						ops = append(ops, resp...)
+					}
+					ops = append(ops, Op{K: "frun", Who: "upd", U: 2})
+					if respAt == 2 {
+						ops = append(ops, resp...)
+					}
+					ops = append(ops, Op{K: "adv", D: d})
+					ops = append(ops, both...)
+					ops = append(ops, fullGet(5, 2)...)
+					ops = append(ops, fullGet(6, 3)...)
+					run(ops)
+				}
 			}
 		}
 	}
